@@ -417,10 +417,47 @@ def one_curve(rec, tap, rng, cid):
                limit=2)
 
 
+def known_witness(rec):
+    """Frozen input of the known finding D18 (recorded arrays of a generated
+    well-formed lagged curve, vm/data): run on every check so that the
+    finding is reported - or seen to be gone - whatever the seed."""
+    import json
+    import pathlib
+    here = pathlib.Path(__file__).resolve().parent.parent / "data"
+    info = json.loads((here / "c07_known_smooth_max_iter.json").read_text())
+    arrs = np.load(here / "c07_known_smooth_max_iter.npz")
+    from nanite.indent import Indentation
+    meta = dict(info["meta"])
+    meta["path"] = pathlib.Path(meta["path"])
+    idnt = Indentation(data={k: np.array(arrs[k]) for k in arrs.files},
+                       metadata=meta)
+    case = {"id": [0, -1], "curve": "frozen witness vm/data/"
+            "c07_known_smooth_max_iter.npz", "pipeline": info["steps"],
+            "pipeline_options": info["options"]}
+    rec.event("frozen witness of the known smoothing finding applied")
+    try:
+        idnt.apply_preprocessing(copy.deepcopy(info["steps"]),
+                                 copy.deepcopy(info["options"]))
+    except ValueError as e:
+        if "max_iter" in str(e):
+            rec.violation(
+                "smooth_height/smooth_axis_monotone-gives-up-max_iter",
+                "pipeline %s raised ValueError: %s on a well-formed curve"
+                % (info["steps"], str(e)[:80]), case)
+        else:
+            raise
+    else:
+        rec.event("frozen witness of the known smoothing finding no longer "
+                  "fails")
+
+
 def run_shard(rec, tier, seed, shard, nshards):
     tap = StepTap(rec)
     tap.install()
     try:
+        if shard == 0:
+            tap.case = {"id": [0, -1], "curve": "frozen witness"}
+            known_witness(rec)
         for i in range(N_CURVES[tier]):
             one_curve(rec, tap, core.case_rng(seed, ID, shard, i), [shard, i])
     finally:
